@@ -23,21 +23,21 @@ def history(seed, i):
     return M.gen_history(random.Random("C12/%d/direct/%d" % (seed, i)), "direct", NSLOTS)
 
 
-def run_stream(driver, stream, asan):
+def run_stream(driver, stream, asan, symbolize=False):
     # symbolize=0: every report would otherwise start an llvm-symbolizer process; reports kept as findings are symbolized afterwards
     extra = None
     if asan:
-        extra = {k: v + ":symbolize=0" for k, v in vlib.ASAN_ENV.items()}
+        extra = vlib.ASAN_ENV if symbolize else {k: v + ":symbolize=0" for k, v in vlib.ASAN_ENV.items()}
     return vlib.run([driver, "run"], env=vlib.base_env(extra), stdin=stream, wall_s=1800, max_out=1 << 30)
 
 
-def run_all(driver, asan, hs):
+def run_all(driver, asan, hs, symbolize=False):
     """executes all histories; histories predicted to end their process run in forked children of the driver, a history
     that unexpectedly kills the driver itself is recorded with the driver's status and stderr and the rest is resubmitted"""
     blocks, restarts, pending = {}, 0, hs
     while pending:
         stream = "".join(M.render_direct(str(i), c, fork=M.hazardous(c)) for i, c in pending)
-        p = run_stream(driver, stream, asan)
+        p = run_stream(driver, stream, asan, symbolize)
         if p.timed_out:
             return blocks, restarts, "driver timed out"
         got, unfinished = M.parse_blocks(p.out)
